@@ -148,6 +148,25 @@ def source_rules(repo):
                  "return (ratio, ratio * old_baseoffset - new_baseoffset)"):
         if need not in src:
             raise LookupError(f"_get_conversion_factor: source shape not recognised: {need}")
+    # which base value a Unit object carries (UnitShape): a bare symbol hands the table entry on,
+    # everything else goes through float(...)
+    g = [n for n in utree.body if isinstance(n, ast.FunctionDef) and n.name == "_get_unit_data_from_expr"]
+    if not g:
+        raise LookupError("_get_unit_data_from_expr not found")
+    src = [ast.unparse(n).split("\n")[0] for n in ast.walk(g[0]) if isinstance(n, ast.stmt)]
+    for need in ("return (float(base_value), dimensions)", "conv = float(unit_data[0] ** power)", "return (conv, unit)",
+                 "return (float(unit_expr), sympy_one)", "return (1.0, sympy_one)",
+                 "return _lookup_unit_symbol(unit_expr.name, unit_symbol_lut, derived_symbols)"):
+        if need not in src:
+            raise LookupError(f"_get_unit_data_from_expr: source shape not recognised: {need}")
+    new = None
+    for node in ast.walk(utree):
+        if isinstance(node, ast.ClassDef) and node.name == "Unit":
+            for f in node.body:
+                if isinstance(f, ast.FunctionDef) and f.name == "__new__":
+                    new = f
+    if new is None or "base_value = float(base_value)" not in [ast.unparse(n).split("\n")[0] for n in ast.walk(new) if isinstance(n, ast.stmt)]:
+        raise LookupError("Unit.__new__: `base_value = float(base_value)` for caller-supplied base values not found")
     return R
 
 
